@@ -245,7 +245,7 @@ pub(crate) async fn process_socket_command(
         endpoint_uri: endpoint_uri.clone(),
         pipe_ids: Some((synthetic_write_id, synthetic_read_id)),
         handle_id: synthetic_read_id,
-        target_endpoint_uri: Some(target_endpoint_uri),
+        target_endpoint_uri: Some(target_endpoint_uri.clone()),
         is_outbound_connection: is_outbound,
         connection_iface,
         peer_socket_type,
@@ -253,6 +253,10 @@ pub(crate) async fn process_socket_command(
 
       {
         let mut cs = core_arc.core_state.write();
+        // The handshake is complete: the back-off for this target starts afresh.
+        if let Some(recon_state) = cs.reconnect_states.get_mut(&target_endpoint_uri) {
+          recon_state.on_connection_success();
+        }
         if let Some(old) = cs.endpoints.insert(endpoint_uri.clone(), endpoint_info) {
           tracing::warn!(handle=core_handle, %endpoint_uri, "Overwrote existing EndpointInfo on UringConnectionEstablished.");
           if let Some(h) = old.task_handle { h.abort(); }
@@ -326,7 +330,7 @@ pub(crate) async fn process_socket_command(
       if let Some(s_read_id) = synthetic_read_id_opt {
         socket_logic_strong.pipe_detached(s_read_id).await;
       }
-      pipe_manager::cleanup_stopped_child_resources(
+      let reconnect_target = pipe_manager::cleanup_stopped_child_resources(
         core_arc.clone(),
         socket_logic_strong,
         handle_id_opt.unwrap_or(0),
@@ -336,6 +340,18 @@ pub(crate) async fn process_socket_command(
         current_shutdown_phase != ShutdownPhase::Running,
       )
       .await;
+      // A lost outbound connection is retried, as for a Tokio session that stopped
+      // (shutdown::handle_actor_stopping_event): the command loop respawns the connecter.
+      if let Some(target_uri) = reconnect_target {
+        if current_shutdown_phase == ShutdownPhase::Running {
+          let mut state = core_arc.core_state.write();
+          let base = state.options.reconnect_ivl.unwrap_or(Duration::from_millis(100));
+          let max = state.options.reconnect_ivl_max.unwrap_or(Duration::from_secs(60));
+          let recon_state = state.reconnect_states.entry(target_uri.clone()).or_default();
+          let delay = recon_state.on_connection_failure(base, max);
+          tracing::info!(handle = core_handle, uri = %target_uri, next_attempt_in = ?delay, "io_uring connection lost. Scheduled for reconnect.");
+        }
+      }
     }
 
     Command::NewConnectionEstablished {
